@@ -100,12 +100,14 @@ impl DerivedTypeInfo {
         let data = if let Some(try_from) = &attrs.try_from {
             // if there was a container `try_from` attribute, then it doesn't matter what the derived input
             // is, we just call the provided function to deserialise it
+            validate_unused_attributes(&input.data)?;
             TraitImplementationInfo::FallibleUserProvidedFunction {
                 try_from_attr: try_from.clone(),
             }
         } else if let Some(from) = &attrs.from {
             // if there was a container `from` attribute, then it doesn't matter what the derived input
             // is, we just call the provided function to deserialise it
+            validate_unused_attributes(&input.data)?;
             TraitImplementationInfo::UnfallibleUserProvidedFunction {
                 from_attr: from.clone(),
             }
@@ -340,6 +342,33 @@ impl DerivedTypeInfo {
             data,
         })
     }
+}
+
+/// When a container-level `from` / `try_from` replaces the generated body, the fields and
+/// variants of the derived type are not used, but their `deserr` attributes must still be
+/// well formed instead of being silently ignored.
+fn validate_unused_attributes(data: &Data) -> syn::Result<()> {
+    match data {
+        Data::Struct(s) => {
+            for field in s.fields.iter() {
+                read_deserr_field_attributes(&field.attrs)?;
+            }
+        }
+        Data::Enum(e) => {
+            for variant in e.variants.iter() {
+                read_deserr_variant_attributes(&variant.attrs)?;
+                for field in variant.fields.iter() {
+                    read_deserr_field_attributes(&field.attrs)?;
+                }
+            }
+        }
+        Data::Union(u) => {
+            for field in u.fields.named.iter() {
+                read_deserr_field_attributes(&field.attrs)?;
+            }
+        }
+    }
+    Ok(())
 }
 
 /// Contains the information needed to generate the deserialization code
